@@ -59,6 +59,7 @@ type interpreter struct {
 	skipExternal       *ssa.Function
 	timers             map[*value]bool
 	syncMaps           map[*value]*omap
+	atomicValues       map[*value]value // sync/atomic.Value contents by address
 	wg                 map[*value]int
 	built              map[*ssa.Package]bool
 }
@@ -758,7 +759,11 @@ func callSSA(i *interpreter, caller *frame, callpos token.Pos, fn *ssa.Function,
 			if ext := i.eng.external(fn); ext != nil {
 				return ext(fr, args)
 			}
-			panic(unsupported("no code for function: " + fn.String()))
+			chain := ""
+			for c, n := caller, 0; c != nil && n < 6; c, n = c.caller, n+1 {
+				chain += " <- " + c.fn.String()
+			}
+			panic(unsupported("no code for function: " + fn.String() + chain))
 		}
 	}
 	if fn.TypeParams().Len() > 0 && len(fn.TypeArgs()) == 0 {
